@@ -359,7 +359,7 @@ func (ctx *checkCtx) report(total *JobResult, update, verbose bool, start time.T
 			switch {
 			case r.Status == "refuted" && r.ReplayOutcome == "reproduced":
 				violations = append(violations, fmt.Sprintf("VIOLATION property=%s replay=%s", ctx.prop, r.Replay))
-			case wasProved || (r.Decisive && r.Status == "refuted"):
+			case (wasProved || (r.Decisive && r.Status == "refuted")) && groupRegressed(bprop, total.Records, r.Name):
 				path := r.Replay
 				if path == "" {
 					path = writeReplayNote(replayDir, r)
@@ -395,7 +395,28 @@ func (ctx *checkCtx) report(total *JobResult, update, verbose bool, start time.T
 		vanishedFns[fn+"#"+kind] = true
 	}
 	sort.Strings(vanished)
+	// (only when the function has more undischarged obligations of that kind
+	// than it had: a reordering that renames obligations keeps the count)
+	openBase, openNow := map[string]int{}, map[string]int{}
+	for name, st := range bprop {
+		if st != "proved" && st != "exhaustive" {
+			fn, kind := splitObName(name)
+			openBase[fn+"#"+kind]++
+		}
+	}
+	for _, r := range total.Records {
+		if r.Cover || r.Bounded || r.Known != "" || r.Kind == "known-canary" || r.Kind == "known-site" {
+			continue
+		}
+		if r.Status != "proved" && r.Status != "exhaustive" {
+			fn, kind := splitObName(r.Name)
+			openNow[fn+"#"+kind]++
+		}
+	}
 	for fk := range vanishedFns {
+		if openNow[fk] <= openBase[fk] {
+			continue
+		}
 		for _, r := range newFailing[fk] {
 			path := r.Replay
 			if path == "" {
@@ -657,3 +678,47 @@ func writeEvidence(ctx *checkCtx, total *JobResult, obligations, discharged, bou
 
 
 func cmdSelftest(args []string) int { return 2 }
+
+// obGroup strips the occurrence suffix (#2, #3, ...) of an obligation name.
+// Obligations of one group differ only in the order in which the engine met
+// them; a harmless reordering of statements permutes the suffixes.
+func obGroup(name string) string {
+	if i := strings.LastIndex(name, "#"); i > 0 {
+		if _, err := strconv.Atoi(name[i+1:]); err == nil {
+			return name[:i]
+		}
+	}
+	return name
+}
+
+var groupCache struct {
+	base map[string]int
+	now  map[string]int
+	done bool
+}
+
+// groupRegressed: more obligations of name's group are undischarged now than
+// were when the baseline was taken (a proof that merely moved to a sibling
+// with another suffix is not a regression).
+func groupRegressed(bprop map[string]string, recs []*ObRecord, name string) bool {
+	if !groupCache.done {
+		groupCache.base = map[string]int{}
+		groupCache.now = map[string]int{}
+		for n, st := range bprop {
+			if st != "proved" && st != "exhaustive" {
+				groupCache.base[obGroup(n)]++
+			}
+		}
+		for _, r := range recs {
+			if r.Cover || r.Bounded || r.Known != "" || r.Kind == "known-canary" || r.Kind == "known-site" {
+				continue
+			}
+			if r.Status != "proved" && r.Status != "exhaustive" {
+				groupCache.now[obGroup(r.Name)]++
+			}
+		}
+		groupCache.done = true
+	}
+	g := obGroup(name)
+	return groupCache.now[g] > groupCache.base[g]
+}
